@@ -7,7 +7,7 @@ import re
 from typing import Any, Dict, List
 
 from .index import AnalysisError, Tree
-from .report import Run
+from .report import Run, load_known
 
 
 def apply_edit(text: str, find: str, repl: str, regex: bool = False, nth: int = 0):
@@ -57,10 +57,12 @@ def run_selftest(prop: str, tree: Tree, verbose: bool = False) -> Dict[str, Any]
             mod.check(run)
         except Exception as e:  # pragma: no cover
             run.errors.append(f"internal {e!r}")
-        rules = sorted({f.rule for f in run.findings})
+        known = [k for k in load_known() if k.get('status', 'known') == 'known']
+        fresh = [f for f in run.findings if not any(k['property'] == f.prop and k['rule'] == f.rule and k['key'] == f.key for k in known)]
+        rules = sorted({f.rule for f in fresh})
         expect = v.get("expect")
         if expect is None:
-            ok = not run.findings and not run.errors
+            ok = not fresh and not run.errors
             if ok:
                 res["silent_twins"] += 1
             else:
